@@ -7,7 +7,7 @@ from cfg import *
 import extract
 
 def main():
-    d, th, _ = extract.extract()
+    d = os.environ.get("VERIF_FACTS_DIR") or extract.extract()[0]
     F = Facts(d)
     mode = "all"
     args = sys.argv[1:]
